@@ -38,6 +38,11 @@ Definition shr64 (a s : N) : N := N.shiftr a s.
 Definition shl64c (a s : N) : res N := if s <? 64 then Ok (shl64 a s) else Fault ShiftTooWide.
 Definition shr64c (a s : N) : res N := if s <? 64 then Ok (shr64 a s) else Fault ShiftTooWide.
 
+(* linear-time list reversal (Coq's [rev] is quadratic); [frev_eq] lets proofs forget the difference *)
+Definition frev {A} (l : list A) : list A := rev_append l [].
+Lemma frev_eq {A} (l : list A) : frev l = rev l.
+Proof. unfold frev. symmetry. apply rev_alt. Qed.
+
 Definition byte (b : N) : Prop := b < 256.
 Definition key := list N.
 
